@@ -190,10 +190,15 @@ def redirectsFollowed (cmds : List TCmd) (calls : List TCall) (evs : List TEv) :
 
 def isRedirectReply (r : String) : Bool := (redirectOf "MOVED" r).isSome || (redirectOf "ASK" r).isSome
 
-/-- single command, `MaxMovedRedirections = k > 0`: at most `k` redirects are followed -/
+/-- single command, `MaxMovedRedirections = k > 0`: at most `k` redirects are followed, and a redirect reply
+    is handed to the caller only after exactly `k` were followed -/
 def boundOk (k : Nat) (cmds : List TCmd) (evs : List TEv) : Bool :=
   k == 0 || cmds.length != 1 ||
-    ((evPairs evs 0).filter fun (e, _) => isRedirectReply e.reply).length ≤ k
+    (let followed := ((evPairs evs 0).filter fun (e, _) => isRedirectReply e.reply).length
+     followed ≤ k &&
+       (match lastEv evs 0 with
+        | some e => !isRedirectReply e.reply || followed == k
+        | none => true))
 
 /-- verdict on one observed run -/
 def judge (k : Nat) (cmds : List TCmd) (results : List String) (calls : List TCall) (evs : List TEv) : String :=
